@@ -51,7 +51,7 @@ HELPERS = ["all", "any", "count", "count_unique", "first", "last", "nth", "min",
 NUMERIC_ONLY = {"all", "any", "mean", "median", "quantile", "std", "var", "sum"}
 KINDS = ["f8", "i8", "b1", "D", "us"]
 ALPHA = {
-    "f8": [None, "1.0", "2.0", "-1.5", "inf", "-inf"],
+    "f8": [None, "1.0", "2.0", "-1.5", "inf", "-inf", "1000000000.5", "1000000001.5"],
     "i8": [0, 1, 4611686018427387904, -3, 2],
     "b1": [False, True],
     "D": [None, "1970-01-01", "2020-02-29"],
